@@ -2,6 +2,7 @@ SPECIFICATION TraceSpec
 INVARIANT OnlyAuthentic
 INVARIANT NeverOlder
 INVARIANT NodeCleanup
+INVARIANT FailedStayOut
 INVARIANT Confluence
 POSTCONDITION TraceAccepted
 CHECK_DEADLOCK FALSE
